@@ -463,6 +463,8 @@ struct Ed<'a> {
     closures_pref_used: Vec<usize>,
     inline_then_used: Vec<usize>,
     caughts_used: Vec<usize>,
+    /// E20: locals bound to an `async { .. }` block that matches a `@@caught` anchor (name, index)
+    caught_futs: Vec<(String, usize)>,
     viter_used: usize,
     inline_entry_used: usize,
     letargs_used: Vec<usize>,
@@ -530,6 +532,7 @@ impl<'a> Ed<'a> {
             closures_pref_used: vec![0; dir.closures_pref.len()],
             inline_then_used: vec![],
             caughts_used: vec![0; dir.caughts.len()],
+            caught_futs: vec![],
             viter_used: 0,
             inline_entry_used: 0,
             letargs_used: vec![0; dir.letargs.len()],
@@ -680,6 +683,22 @@ impl<'a, 'ast> Visit<'ast> for Ed<'a> {
                 self.edits.push(Edit { start: r.start, end: r.start, text: format!("{ins}\n"), kind: "splice-before", swallow: false });
             }
         }
+        // E20: `let fut = async { BODY };` .. `AssertUnwindSafe(fut).catch_unwind()`: the user code is
+        // named first and run under catch_unwind later; the `let` is erased (an async block does
+        // nothing until it is polled) and the catch expression is replaced by the oracle stand-in
+        if let syn::Stmt::Local(l) = s {
+            if let (syn::Pat::Ident(pi), Some(init)) = (&l.pat, &l.init) {
+                if let syn::Expr::Async(a) = &*init.expr {
+                    let body = &self.src[a.block.span().byte_range()];
+                    let hit = self.dir.caughts.iter().position(|(anchor, _)| body.contains(anchor.trim_start_matches('~').trim()));
+                    if let Some(n) = hit {
+                        self.caught_futs.push((pi.ident.to_string(), n));
+                        self.push(r.start, r.end, "// vx: E20 — async block of user code, run under catch_unwind below", "E20-caught-user-code", true);
+                        return;
+                    }
+                }
+            }
+        }
         visit::visit_stmt(self, s);
     }
     fn visit_expr(&mut self, e: &'ast syn::Expr) {
@@ -781,6 +800,18 @@ impl<'a, 'ast> Visit<'ast> for Ed<'a> {
         // E20: `AssertUnwindSafe(async { BODY }).catch_unwind()` -> the declared oracle stand-in
         if e.method == "catch_unwind" && e.args.is_empty() {
             if let syn::Expr::Call(c) = &*e.receiver {
+                if let (syn::Expr::Path(p), Some(syn::Expr::Path(fp)), 1) = (&*c.func, c.args.first(), c.args.len()) {
+                    if p.path.segments.last().map(|s| s.ident == "AssertUnwindSafe").unwrap_or(false) {
+                        let hit = self.caught_futs.iter().rev().find(|(name, _)| fp.path.is_ident(name.as_str())).map(|(_, n)| *n);
+                        if let Some(n) = hit {
+                            self.caughts_used[n] += 1;
+                            let es = e.span().byte_range();
+                            let repl = self.dir.caughts[n].1.clone();
+                            self.push(es.start, es.end, repl, "E20-caught-user-code", true);
+                            return;
+                        }
+                    }
+                }
                 if let (syn::Expr::Path(p), Some(syn::Expr::Async(a)), 1) = (&*c.func, c.args.first(), c.args.len()) {
                     if p.path.segments.last().map(|s| s.ident == "AssertUnwindSafe").unwrap_or(false) {
                         let body = &self.src[a.block.span().byte_range()];
